@@ -6,6 +6,7 @@
 // case file lines:
 //   one <cmp> <rank> <seq>|<seq>|...          a single rank
 //   all <cmp> <seq>|<seq>|...                 every rank 0..N
+//   rot <cmp> <seq>|<seq>|...                 every rank 0..N, one variant per rank (rotating, as for `exh`)
 //   exh <cmp> <m> <minlen> <maxlen> <keys>    every tuple of exactly m sorted sequences with lengths in
 //                                             [minlen,maxlen] over keys 0..keys-1, every rank (one line per tuple)
 //   pad <x>                                   the padded length  round_up_to_power_of_two(x + 1) - 1  through every
@@ -37,7 +38,9 @@
 //   RankType      int, long, long long, unsigned int, std::size_t
 //   iterators     std::vector<T>::iterator, T* (raw pointers), std::deque<T>::iterator
 //   RanSeqs       vector<pair>::iterator, pair*, vector<pair>::const_iterator; offsets via iterator or raw pointer
-//   element type  int, struct KV {key, payload} compared by key only
+//   element type  int, struct KV {key, payload} compared by key only; a moved-from KV is poisoned.  After every
+//                 single call the input sequences are compared element by element with the case's lists
+//                 ("!INPUT-MODIFIED" in the entry otherwise), and both functions are called twice per rank
 //   comparator    the plain functor (2 variants) and comparators WITH STATE (8 variants): a by-key adaptor and a
 //                 non-default-constructible wrapper owning heap state, a capturing lambda, a std::function, a plain
 //                 function pointer.  The state (PoisonState) is scrambled by the destructor, so a comparator
@@ -108,10 +111,26 @@ static void brute(std::vector<Seq>& seqs, diff_t rank, std::vector<diff_t>& cnt,
     }
 }
 
+// moved-from state is visible: a moved-from KV carries the poison key (the functions must not move out of the
+// caller's sequences)
+static const int kMovedKey = -777777;
 struct KV {
     int key;
     int payload;
+    KV() : key(0), payload(0) {}
+    KV(const KV&) = default;
+    KV& operator=(const KV&) = default;
+    KV(KV&& o) noexcept : key(o.key), payload(o.payload) { o.key = kMovedKey; o.payload = -1; }
+    KV& operator=(KV&& o) noexcept {
+        key = o.key; payload = o.payload;
+        if (&o != this) { o.key = kMovedKey; o.payload = -1; }
+        return *this;
+    }
 };
+static inline bool payload_ok(int, size_t, size_t) { return true; }
+static inline bool payload_ok(const KV& x, size_t i, size_t p) { return x.payload == static_cast<int>(i * 100000 + p); }
+// the explicit lists of the current tuple: after EVERY call the sequences handed to the functions must still equal them
+inline const std::vector<Seq>* g_master = nullptr;
 static inline int key_of(int x) { return x; }
 static inline int key_of(const KV& x) { return x.key; }
 static inline void make_elem(int& e, int x, int) { e = x; }
@@ -167,9 +186,10 @@ struct Answer {
     int v = 0;
     long soff = -1;
     std::string note;   // "#alias=..." when an aliasing call mode deviates
+    bool modified = false;   // a call changed the caller's sequences
     bool sel_only = false;
     bool operator==(const Answer& o) const {
-        return offs == o.offs && thrown == o.thrown && (thrown || (v == o.v && soff == o.soff));
+        return offs == o.offs && thrown == o.thrown && (thrown || (v == o.v && soff == o.soff)) && modified == o.modified;
     }
 };
 
@@ -224,13 +244,37 @@ static Answer run_one(std::vector<std::pair<It, It>> iters, long rank, Comp comp
         else return tlx::multisequence_selection<Elem>(iters.cbegin(), iters.cend(), r_in, off_out, comp);
     };
     a.sel_only = g_sel_only;
+    // the sequences are inputs: after every call they must be element-for-element what the case says
+    auto input_intact = [&](const char* after) {
+        if (!g_master || a.modified) return;
+        for (size_t i = 0; i < m; ++i) {
+            const Seq& want = (*g_master)[i];
+            for (size_t p = 0; p < want.size(); ++p)
+                if (key_of(iters[i].first[static_cast<std::ptrdiff_t>(p)]) != want[p] ||
+                    !payload_ok(iters[i].first[static_cast<std::ptrdiff_t>(p)], i, p)) {
+                    a.modified = true; a.note += " #input-modified-by="; a.note += after; return;
+                }
+        }
+    };
+    auto partition_into = [&](std::vector<It>& o) {
+        if constexpr (RK == 0) tlx::multisequence_partition(iters.begin(), iters.end(), rk, o.begin(), comp);
+        else if constexpr (RK == 1) tlx::multisequence_partition(iters.data(), iters.data() + m, rk, o.data(), comp);
+        else tlx::multisequence_partition(iters.cbegin(), iters.cend(), rk, o.begin(), comp);
+    };
     for (size_t i = 0; i < m; ++i) offs[i] = iters[i].first;
-    if (!g_sel_only) {
-        if constexpr (RK == 0) tlx::multisequence_partition(iters.begin(), iters.end(), rk, offs.begin(), comp);
-        else if constexpr (RK == 1) tlx::multisequence_partition(iters.data(), iters.data() + m, rk, offs.data(), comp);
-        else tlx::multisequence_partition(iters.cbegin(), iters.cend(), rk, offs.begin(), comp);
-    }
+    if (!g_sel_only) { partition_into(offs); input_intact("partition"); }
     try { v = select(rk, soff); } catch (std::exception&) { a.thrown = true; }
+    input_intact("selection");
+    // every query twice on the same runs
+    {
+        std::vector<It> offs2(offs);
+        if (!g_sel_only) { partition_into(offs2); input_intact("partition(2nd)"); }
+        RankT soff2 = static_cast<RankT>(-1); Elem v2 = Elem(); bool thrown2 = false;
+        try { v2 = select(rk, soff2); } catch (std::exception&) { thrown2 = true; }
+        input_intact("selection(2nd)");
+        bool same = (offs2 == offs) && thrown2 == a.thrown && (thrown2 || (key_of(v2) == key_of(v) && soff2 == soff));
+        if (!same) { offs = offs2; a.thrown = thrown2; v = v2; soff = soff2; a.note += " #repeat=second-call-differs"; }
+    }
     // call mode: the default comparator argument (Comparator = std::less<value_type>) of both templates
     if constexpr (std::is_same<Comp, std::less<Elem>>::value && RK == 0) {
         std::vector<It> offs2(offs);
@@ -239,6 +283,7 @@ static Answer run_one(std::vector<std::pair<It, It>> iters, long rank, Comp comp
         try { v2 = tlx::multisequence_selection<Elem>(iters.begin(), iters.end(), rk, soff2); } catch (std::exception&) { thrown2 = true; }
         bool same = (offs2 == offs) && thrown2 == a.thrown && (thrown2 || (key_of(v2) == key_of(v) && soff2 == soff));
         if (!same) { offs = offs2; a.thrown = thrown2; v = v2; soff = soff2; a.note += " #mode=default-comparator"; }
+        input_intact("default-comparator-calls");
     }
     // call mode: one object is both `rank` (const RankType&) and `offset` (RankType&)
     {
@@ -247,6 +292,7 @@ static Answer run_one(std::vector<std::pair<It, It>> iters, long rank, Comp comp
         if (thrown2 != a.thrown || (!thrown2 && (key_of(v2) != key_of(v) || pos != soff))) {
             a.thrown = thrown2; v = v2; soff = pos; a.note += " #alias=selection(rank-is-offset)";
         }
+        input_intact("selection(aliased)");
     }
     // call mode: the offsets overwrite the `first` members of the pairs
     if constexpr (RK == 1) if (!g_sel_only) {
@@ -255,6 +301,7 @@ static Answer run_one(std::vector<std::pair<It, It>> iters, long rank, Comp comp
         bool same = true;
         for (size_t i = 0; i < m; ++i) if (inplace[i].first != offs[i]) same = false;
         if (!same) { for (size_t i = 0; i < m; ++i) offs[i] = inplace[i].first; a.note += " #alias=partition(offsets-in-place)"; }
+        input_intact("partition(in-place)");
     }
     for (size_t i = 0; i < m; ++i) a.offs.push_back(static_cast<long>(offs[i] - iters[i].first));
     a.v = show_val<ShowComp>(key_of(v));
@@ -423,6 +470,7 @@ static void show_answer(long rank, const Answer& a, std::string& out) {
     if (a.sel_only) {
         if (a.thrown) out += "throw";
         else { snprintf(buf, sizeof buf, "%d:%ld", a.v, a.soff); out += buf; }
+        if (a.modified) out += "!INPUT-MODIFIED";
         return;
     }
     for (size_t i = 0; i < a.offs.size(); ++i) {
@@ -431,6 +479,7 @@ static void show_answer(long rank, const Answer& a, std::string& out) {
     }
     if (a.thrown) out += ":throw";
     else { snprintf(buf, sizeof buf, ":%d:%ld", a.v, a.soff); out += buf; }
+    if (a.modified) out += "!INPUT-MODIFIED";
 }
 
 static long g_entry = 0;   // rotates the variants over the enumerations
@@ -504,6 +553,7 @@ static void run_tuple(const char* cname, std::vector<Seq>& seqs, diff_t only_ran
     std::string out = cname; out += " "; out += show_seqs(seqs); out += " =>";
     std::string tags;
     Tuple T(seqs);
+    g_master = &seqs;
     diff_t N = 0; for (auto& s : seqs) N += static_cast<diff_t>(s.size());
     if (only_rank >= 0) run_rank(seqs, T, only_rank, out, tags, every_variant, comp);
     else for (diff_t r = 0; r <= N; ++r) run_rank(seqs, T, r, out, tags, every_variant, comp);
@@ -610,6 +660,7 @@ static void run_sel(const std::string& c, long rank, std::vector<Seq>& seqs) {
     g_sel_only = true;
     std::string out = "S" + c + " " + show_seqs(seqs) + " =>", tags;
     Tuple T(seqs);
+    g_master = &seqs;
     if (c == "L") run_rank(seqs, T, rank, out, tags, true, std::less<int>());
     else if (c == "G") run_rank(seqs, T, rank, out, tags, true, std::greater<int>());
     else run_rank(seqs, T, rank, out, tags, true, QLess());
@@ -621,6 +672,7 @@ static void run_sel(const std::string& c, long rank, std::vector<Seq>& seqs) {
 static void run_narrow_line(const std::string& type, long rank, std::vector<Seq>& seqs) {
     std::string out = "L " + show_seqs(seqs) + " =>";
     Tuple T(seqs);
+    g_master = &seqs;
     Answer a = run_narrow(type == "uchar" ? 0 : 1, T, rank);
     show_answer(rank, a, out);
     out += a.note;
@@ -663,6 +715,10 @@ int main(int argc, char** argv) {
             std::string s; ls >> c >> s;
             std::vector<Seq> seqs = parse_seqs(s);
             dispatch(c, seqs, -1, true);
+        } else if (kind == "rot") {       // every rank like `all`, but rotating through the variants like `exh`
+            std::string s; ls >> c >> s;
+            std::vector<Seq> seqs = parse_seqs(s);
+            dispatch(c, seqs, -1, false);
         } else if (kind == "exh") {
             int m, lo, hi, keys; ls >> c >> m >> lo >> hi >> keys;
             run_exh(c, m, lo, hi, keys);
